@@ -61,7 +61,7 @@ func (w *regWorld) check(what string) {
 }
 
 func (w *regWorld) closeOne(i int) {
-	switch verif.Choose(5) {
+	switch verif.Choose(6) {
 	case 0:
 		w.fts[i].OnClose()
 	case 1:
@@ -72,6 +72,15 @@ func (w *regWorld) closeOne(i int) {
 		w.socks[i].Close(true)
 	case 4:
 		w.socks[i].Close(false)
+		w.fts[i].complete()
+	case 5:
+		// graceful close with packets still buffered: it completes from inside the hand-off
+		// that drains them (the transport's close callback runs synchronously)
+		w.socks[i].Send(types.NewStringBufferString("a"), nil, nil)
+		w.socks[i].Send(types.NewStringBufferString("b"), nil, nil)
+		w.socks[i].Close(false)
+		w.fts[i].complete()
+		w.fts[i].complete()
 		w.fts[i].complete()
 	}
 	w.live[i] = false
